@@ -1425,7 +1425,14 @@ class Interp:
         outs = []
         deps = d.deps()
         targets = [(v, tgt) for v, tgt in arms]
+        # the discriminant of an enum value whose possible variants are known (a join of known variants): arms of other
+        # variants are not reachable
+        possible = None
+        if d.kind == "int" and d.pred is not None and d.pred[0] == "discr" and getattr(d.pred[1], "alts", None):
+            possible = set(d.pred[1].alts.keys())
         for v, tgt in targets:
+            if possible is not None and v not in possible:
+                continue
             s2 = st.copy()
             ok = True
             if d.kind == "int":
@@ -1445,7 +1452,9 @@ class Interp:
         # otherwise
         s2 = st.copy()
         ok = True
-        if d.kind == "int":
+        if possible is not None and possible <= set(v for v, _ in targets):
+            ok = False
+        if d.kind == "int" and ok:
             if d.ty == "bool":
                 vals = set(v for v, _ in targets)
                 rest = {0, 1} - vals
